@@ -72,11 +72,11 @@ PROPERTIES = {
                "covers the whole initial block; defaults are included unless the condition is implied by the guard; implied-by-guard answers are sound. "
                "NOT decided: that the fixed point covers all reachable values."),
     "C06": dict(
-        specs=[S("NULLSPACE"), S("ABSTRACT"), S("GROEBNER"), S("RATLATTICE")],
+        specs=[S("NULLSPACE"), S("ABSTRACT"), S("GROEBNER"), S("RATLATTICE"), S("INVINPUTS")],
         clause="no truncation of a rational kernel on the way to exponent vectors; exponentials are abstracted only behind raising checks; the eliminated symbols are "
                "exactly the lex prefix that is filtered. NOT decided: that reported polynomials vanish on the sequences."),
     "C07": dict(
-        specs=[S("GROEBNER")],
+        specs=[S("GROEBNER"), S("INVINPUTS", r"invariant_ideal")],
         clause="both groebner() calls compute elimination ideals (generator prefix == filtered symbols, lex order). NOT decided: completeness of the exponent lattice."),
     "C08": dict(
         specs=[S("A1-dist"), S("A2", r"program/distribution/"), S("SAMPLERS"), S("ENUM"), S("FLOAT", r"float_to_rational|distribution"), S("CFMGF"), S("DISTREWRITE")],
@@ -96,7 +96,7 @@ PROPERTIES = {
         clause="mgf is used only behind a raising existence test at the order used; function-name literals are in the grammar vocabulary, dispatchers are total, trig/exp "
                "mixing is refused; rounding happens in one funnel. NOT decided: the transform formulas."),
     "C15": dict(
-        specs=[S("CPT"), S("CODEGEN"), S("SPLICE", r"bayesnet/"), S("SANITISER")],
+        specs=[S("CPT"), S("CODEGEN"), S("SPLICE", r"bayesnet/"), S("SANITISER"), S("STATE")],
         clause="CPT rows are written only after the row-sum check, in default->table->entries order with a final completeness check; generated code is in topological "
                "order, numbers values by domain position of their own variable; names are sanitised to grammar atoms. NOT decided: numeric query answers."),
     "C16": dict(
